@@ -36,7 +36,7 @@ const char * const mv_verdict_name[] = {
   "ok", "violation", "deadlock", "livelock", "crash", "exit", "timeout",
   "divergence", "engine-error" };
 
-enum { ST_NONE = 0, ST_RUN, ST_READY, ST_SPIN, ST_IDLE, ST_YSPIN, ST_LEFT, ST_YMULTI };
+enum { ST_NONE = 0, ST_RUN, ST_READY, ST_SPIN, ST_IDLE, ST_YSPIN, ST_LEFT, ST_YMULTI, ST_WAITQ };
 #define YL_MAX 8
 enum { MODE_FREE = 0, MODE_CTL = 1 };
 
@@ -185,6 +185,10 @@ static void leave_control(void) {
 static void decide(int w, int pid) {
   int mask = 0, nalt = 0, alts[MV_MAXW];
   for (int v = 0; v < S.nw; v++) if (enabled(v)) mask |= 1 << v;
+  if (!mask) {
+    /* a worker waiting for quiescence continues once nobody else can do anything */
+    for (int v = 0; v < S.nw; v++) if (S.st[v] == ST_WAITQ) { mask |= 1 << v; break; }
+  }
   if (!mask) {
     int all_left = 1;
     for (int v = 0; v < S.nw; v++) if (S.st[v] != ST_LEFT) all_left = 0;
@@ -353,7 +357,9 @@ void mythv_leave(int rank) {
   if (!in_control()) return;
   check_owner("leave");
   S.st[tl_w] = ST_LEFT;
-  decide(tl_w, 0);
+  int w = tl_w;
+  tl_w = -1;                 /* this OS thread is outside the scheduler from now on */
+  decide(w, 0);
 }
 
 /* ------------------------------------------------------------------ ledger */
@@ -376,10 +382,7 @@ static void lg_range(struct lg * e, char ** lo, char ** hi) {
 
 void mythv_alloc(int kind, void * p, size_t sz, int rank) {
   if (!mv_sh || mv_sh == &mv_dummy_shared) return;
-  if (tl_w < 0) return;
-  if (S.mode != MODE_CTL && !S.ended && !S.begin_req) {
-    /* before control: remember (e.g. the main thread's descriptor) */
-  }
+  if (tl_w < 0 || S.ended) return;
   struct lg * e = lg_find(kind, p);
   if (e && e->state == LG_OWNED) {
     char b[200]; snprintf(b, sizeof b, "%s %p handed out by worker %d while still in use (never released since worker %d got it)",
@@ -411,7 +414,7 @@ void mythv_alloc(int kind, void * p, size_t sz, int rank) {
 
 void mythv_free(int kind, void * p, size_t sz, int rank) {
   if (!mv_sh || mv_sh == &mv_dummy_shared) return;
-  if (tl_w < 0) return;
+  if (tl_w < 0 || S.ended) return;
   struct lg * e = lg_find(kind, p);
   if (!e) {
     if (S.ended || S.mode != MODE_CTL) return;   /* objects created before control began */
@@ -444,10 +447,19 @@ void mythv_free(int kind, void * p, size_t sz, int rank) {
 }
 
 long mv_ledger_outstanding(int kind) { return lg_out[kind]; }
+volatile long * mv_ledger_out_ptr(int kind) { return &lg_out[kind]; }
 long mv_ledger_fresh(int kind) { return lg_fresh[kind]; }
 
 /* ------------------------------------------------------------------ harness API */
 void mv_point(const volatile void * addr, size_t sz) { mythv_point(mythv_p_user, addr, sz); }
+
+/* let every other worker run until none of them can make progress any more */
+void mv_quiesce(void) {
+  if (!in_control()) return;
+  check_owner("quiesce");
+  S.st[tl_w] = ST_WAITQ;
+  decide(tl_w, mythv_p_user + 2);
+}
 
 void mv_wait_until_changed(const volatile void * addr, size_t sz) {
   mythv_yspin(mythv_p_user + 1, addr, sz);
